@@ -38,8 +38,23 @@ let parse toks =
   | "deltagref" :: _ -> Some (ODelTagRef (zi 1, zi 2, zi 3))
   | "vdelete" :: _ -> Some (OVDelete (zi 1))
   | "vsdelete" :: _ -> Some (OVSDelete (zi 1))
-  | "vsnew" :: _ -> Some (OVsNew (zi 4, s 1, s 2))
-  | "vsnewempty" :: _ -> Some (OVsNew (zi 3, s 1, s 2))
+  | "vsnew" :: _ -> Some (OVsNew (zi 4, s 1, s 2, [unhex "66"]))
+  | "vsnewempty" :: _ -> Some (OVsNew (zi 3, s 1, s 2, []))
+  | "vsgetvdatasf" :: _ -> Some (OGetVdatasF (None, zi 1, zi 2))
+  | "vsgetvdatasg" :: _ -> Some (OGetVdatasG (zi 1, None, zi 2, zi 3))
+  | "vsofclassf" :: _ -> Some (OGetVdatasF (Some (s 1), zi 2, zi 3))
+  | "vsofclassg" :: _ -> Some (OGetVdatasG (zi 1, Some (s 2), zi 3, zi 4))
+  | "countvgroupsf" :: _ -> Some (OCountVgroupsF (zi 1))
+  | "countvgroupsg" :: _ -> Some (OCountVgroupsG (zi 1, zi 2))
+  | "vhmakegroup" :: _ ->
+    let o k = match List.nth_opt toks k with Some "~" -> None | Some x -> Some (unhex x) | None -> None in
+    let rec pairs = function t :: r :: rest -> (z (int_of_string t), z (int_of_string r)) :: pairs rest | _ -> [] in
+    let rest = (match toks with _ :: _ :: _ :: _ :: r -> r | _ -> []) in
+    Some (OVHMakeGroup (zi 3, o 1, o 2, pairs rest))
+  | "ventries" :: _ -> Some (OVentries (zi 1))
+  | "querytag" :: _ -> Some (OQueryTag (zi 1))
+  | "gisinternal" :: _ -> Some (OGisInternal (zi 1))
+  | "flocate" :: _ -> Some (OFlocate (zi 1, s 2))
   | "vsattach" :: _ -> Some (OVsAttach (zi 1, zi 2))
   | "vsdetach" :: _ -> Some (OVsDetach (zi 1))
   | "ntagrefs" :: _ -> Some (ONTagRefs (zi 1))
